@@ -393,8 +393,10 @@ namespace cds { namespace intrusive {
         /// Return capacity of the priority queue
         size_t capacity() const
         {
-            // m_Heap[0] is not used
-            return m_Heap.capacity() - 1;
+            // m_Heap[0] is not used.
+            // The bit-reversed item counter fills the last heap level in scattered order, so only complete
+            // levels may be used: for a buffer whose size is not a power of two the tail of the buffer is unused
+            return cds::beans::floor2( m_Heap.capacity()) - 1;
         }
 
         /// Returns const reference to internal statistics
